@@ -11,6 +11,7 @@ From CK Require Import Ops.
 From CK Require Import Struct.
 From CK Require Import OpsProps.
 From CK Require Import DiffStruct.
+From CK Require Import MulStruct.
 Close Scope Qc_scope. Close Scope Q_scope. Close Scope Z_scope. Open Scope nat_scope.
 
 (* integrate refuses (structural-property error) every circuit that is not smooth and decomposable *)
@@ -146,3 +147,36 @@ Theorem C09_differentiate_output_blocks :
              (outs c) blocks.
 Proof. exact differentiate_output_scopes. Qed.
 Print Assumptions C09_differentiate_output_blocks.
+
+(* whenever multiply_m returns (operands well-formed), the product is smooth and decomposable, has the operands' scope, one output per pair of outputs (all valid nodes), and output (o1,o2) has scope scope(o1) U scope(o2) *)
+Theorem C09_multiply_result :
+  forall a b p : circuit,
+         wf a = true ->
+         wf b = true ->
+         multiply_m a b = Ok p ->
+         is_smooth p = true /\
+         is_decomposable p = true /\
+         length (outs p) = length (outs a) * length (outs b) /\
+         (forall o : nat, In o (outs p) -> o < length (nodes p)) /\
+         Forall2
+           (fun (pq : nat * nat) (o : nat) =>
+            nth o (scopes p) [] = sunion (nth (fst pq) (scopes a) []) (nth (snd pq) (scopes b) []))
+           (pairs pair (outs a) (outs b)) (outs p) /\ cscope p = cscope a.
+Proof. exact multiply_structure. Qed.
+Print Assumptions C09_multiply_result.
+
+(* every multiplied pair of layers has disjoint or equal scopes and its product node has the union as scope *)
+Theorem C09_multiply_pair_scopes :
+  forall (a b : circuit) (i j k : nat),
+         wf a = true ->
+         wf b = true ->
+         compatible a b = true ->
+         j < length (nodes b) ->
+         nth (i * length (nodes b) + j) (mtbl (mul_final a b)) None = Some k ->
+         k < length (mnodes (mul_final a b)) /\
+         nth k (scopes_from (mnodes (mul_final a b)) []) [] =
+         sunion (nth i (scopes a) []) (nth j (scopes b) []) /\
+         (sdisjoint (nth i (scopes a) []) (nth j (scopes b) []) = true \/
+          nth i (scopes a) [] = nth j (scopes b) []).
+Proof. exact multiply_table_scopes. Qed.
+Print Assumptions C09_multiply_pair_scopes.
